@@ -9,6 +9,7 @@ import (
 	"bytes"
 	"context"
 	"encoding/json"
+	"errors"
 	"fmt"
 	"io"
 	"log/slog"
@@ -20,6 +21,7 @@ import (
 	"strconv"
 	"strings"
 	"sync"
+	"sync/atomic"
 	"time"
 
 	"google.golang.org/protobuf/types/known/timestamppb"
@@ -27,6 +29,7 @@ import (
 	"reduction.dev/reduction/batching"
 	"reduction.dev/reduction/connectors/embedded"
 	"reduction.dev/reduction/dkv"
+	"reduction.dev/reduction/dkv/storage"
 	"reduction.dev/reduction/proto"
 	"reduction.dev/reduction/proto/jobpb"
 	"reduction.dev/reduction/proto/snapshotpb"
@@ -45,7 +48,7 @@ func (eng) CoqRequire(mode string) string {
 func (eng) CoqCaseType(mode string) string { return "Check_state.case" }
 func (eng) CoqRun(mode string) string      { return "Check_state.run" }
 func (eng) Rule(mode string) string {
-	return "A case is a history of ops (keyed event with the key results the scripted handler returns for it | batch-timer flush | wait for DKV background tasks | checkpoint barrier | redeploy from the latest checkpoint) against one real Operator (key-group count 1/2/7/256/65535, batch size 1..5, DKV memtable 96..2048 bytes, table target 128..4096 bytes, L0 trigger 2, smallest level 256..2048 bytes). Subject keys come from adversarial families (empty, nested prefixes, 0x00 / 0xff runs, keys that contain another key's encoded suffix, long), namespaces include empty / prefixes of each other / length-vs-lexicographic order inversions / 255 bytes, entry keys empty / prefixes, values empty..400 bytes (2.5KB thorough). Non-trivial: the handler was called at least twice, at least one delete or overwrite of a live entry happened and some later call was handed state for that key; distinct by hash of the case."
+	return "A case is a history of ops (keyed event with the key results the scripted handler returns for it | batch-timer flush | wait for DKV background tasks | checkpoint barrier | redeploy from the latest checkpoint) against one real Operator (key-group count 1/2/7/256/65535, batch size 1..5, DKV memtable 96..2048 bytes, table target 128..4096 bytes, L0 trigger 2, smallest level 256..2048 bytes). Subject keys come from adversarial families (empty, nested prefixes, 0x00 / 0xff runs, keys that contain another key's encoded suffix, long), namespaces include empty / prefixes of each other / length-vs-lexicographic order inversions / 255 bytes, entry keys empty / prefixes, values empty..400 bytes (2.5KB thorough). About a fifth of the events of cases without redeploy carry a storage read fault (ReadAt of table files fails from a generated offset / from the n-th read on) armed while the state for the batch they complete is read: the batch must either fail with the error (no handler call, nothing applied) or hand over the complete state. Non-trivial: the handler was called at least twice, at least one delete or overwrite of a live entry happened and some later call was handed state for that key; distinct by hash of the case."
 }
 
 // ---------- case format ----------
@@ -68,6 +71,56 @@ type op struct {
 	K   string `json:"k"` // ev | flush | wait | ckpt | restore
 	Key []byte `json:"key,omitempty"`
 	Res []kres `json:"res,omitempty"`
+	// storage read fault while the state for the batch this event completes is read (ignored if the event does not
+	// fill the batch, or the case redeploys): M "off": every ReadAt of a table file at offset >= V fails;
+	// M "nth": the V-th ReadAt of a table file and all later ones fail. Disarmed when the handler is entered.
+	Fault *faultSpec `json:"fault,omitempty"`
+}
+
+type faultSpec struct {
+	M string `json:"m"`
+	V int64  `json:"v"`
+}
+
+// ---------- fault-injecting file system (installed through the call-site hook operator.deploy.fs) ----------
+
+type faultCtl struct {
+	armed atomic.Bool
+	byOff bool
+	v     int64
+	reads atomic.Int64
+	hits  atomic.Int64
+}
+
+var errInjected = errors.New("injected storage read fault")
+
+type faultFS struct {
+	storage.FileSystem
+	ctl *faultCtl
+}
+
+func (fs *faultFS) New(path string) storage.File {
+	return &faultFile{File: fs.FileSystem.New(path), ctl: fs.ctl}
+}
+func (fs *faultFS) Open(path string) storage.File {
+	return &faultFile{File: fs.FileSystem.Open(path), ctl: fs.ctl}
+}
+
+type faultFile struct {
+	storage.File
+	ctl *faultCtl
+}
+
+func (f *faultFile) ReadAt(p []byte, off int64) (int, error) {
+	c := f.ctl
+	if c.armed.Load() && strings.HasSuffix(f.File.Name(), ".sst") {
+		n := c.reads.Add(1)
+		if (c.byOff && off >= c.v) || (!c.byOff && n >= c.v) {
+			c.hits.Add(1)
+			return 0, errInjected
+		}
+	}
+	return f.File.ReadAt(p, off)
 }
 
 type tuning struct {
@@ -225,6 +278,13 @@ func genCase(r *hx.Rand, idx int, tier string) *hx.Case {
 		}
 		key := hx.Pick(r, keys)
 		o := op{K: "ev", Key: key}
+		if !restore && r.Chance(1, 5) {
+			if r.Bool() {
+				o.Fault = &faultSpec{M: "off", V: int64(hx.Pick(r, []int{0, 40, 120, 250, 400, 600, 900, 1400, 2500}) + r.Intn(60))}
+			} else {
+				o.Fault = &faultSpec{M: "nth", V: int64(r.Range(1, 60))}
+			}
+		}
 		nres := 1
 		if r.Chance(1, 8) {
 			nres = 0
@@ -357,6 +417,7 @@ type call struct {
 type scriptHandler struct {
 	ops   []op
 	calls []call
+	ctl   *faultCtl
 }
 
 func (h *scriptHandler) KeyEventBatch(ctx context.Context, events [][]byte) ([][]*handlerpb.KeyedEvent, error) {
@@ -364,6 +425,9 @@ func (h *scriptHandler) KeyEventBatch(ctx context.Context, events [][]byte) ([][
 }
 
 func (h *scriptHandler) ProcessEventBatch(ctx context.Context, req *handlerpb.ProcessEventBatchRequest) (*handlerpb.ProcessEventBatchResponse, error) {
+	if h.ctl != nil {
+		h.ctl.armed.Store(false) // the state has been read: faults are only meant for GetState
+	}
 	c := call{}
 	resp := &handlerpb.ProcessEventBatchResponse{}
 	for _, ev := range req.Events {
@@ -538,7 +602,16 @@ func (eng) execute(mode string, c *hx.Case) (*hx.Result, error) {
 	}
 
 	job := &fakeJob{}
-	h := &scriptHandler{ops: ops}
+	ctl := &faultCtl{}
+	verifhook.Set(func(name string, args ...any) {
+		if name == "operator.deploy.fs" && len(args) == 1 {
+			if p, ok := args[0].(*storage.FileSystem); ok && *p != nil {
+				*p = &faultFS{FileSystem: *p, ctl: ctl}
+			}
+		}
+	})
+	defer verifhook.Set(nil)
+	h := &scriptHandler{ops: ops, ctl: ctl}
 	tm := &manualTimer{}
 	opr := operator.NewOperator(operator.NewOperatorParams{
 		ID: "op0", Host: "h", Job: job, UserHandler: h,
@@ -581,13 +654,39 @@ func (eng) execute(mode string, c *hx.Case) (*hx.Result, error) {
 	}
 	var nextCkpt uint64 = 1
 	nFlushOps, nWait, nCkpt, nRestore := 0, 0, 0, 0
+	nArmed, nFailed, nSwallowed := 0, 0, 0
 	for i, o := range ops {
 		switch o.K {
 		case "ev":
+			armed := false
+			if o.Fault != nil && !needDir && len(pending)+1 >= maxSize {
+				// no background reader may be hit: flush and compaction are done before the fault is armed, and the
+				// handler disarms it before anything is written
+				if err := opr.VerifDKV().WaitOnTasks(); err != nil {
+					return nil, fmt.Errorf("dkv background task: %w", err)
+				}
+				ctl.byOff, ctl.v = o.Fault.M == "off", o.Fault.V
+				ctl.reads.Store(0)
+				ctl.hits.Store(0)
+				ctl.armed.Store(true)
+				armed = true
+				nArmed++
+			}
 			err := opr.HandleEvent(ctx, "sr1", &workerpb.Event{Event: &workerpb.Event_KeyedEvent{
 				KeyedEvent: &handlerpb.KeyedEvent{Key: bytes.Clone(o.Key), Value: []byte(strconv.Itoa(i))}}})
+			ctl.armed.Store(false)
 			if err != nil {
+				if armed && ctl.hits.Load() > 0 {
+					// the batch failed with the error: no handler call, its events are gone
+					nFailed++
+					steps = append(steps, xstep{kind: "fail", ops: append(pending, i)})
+					pending = nil
+					continue
+				}
 				return nil, fmt.Errorf("HandleEvent op %d: %w", i, err)
+			}
+			if armed && ctl.hits.Load() > 0 {
+				nSwallowed++ // a read failed and no error came back: the check decides whether the state is complete
 			}
 			pending = append(pending, i)
 			if len(pending) >= maxSize {
@@ -691,6 +790,12 @@ func (eng) execute(mode string, c *hx.Case) (*hx.Result, error) {
 			}
 			ci++
 			items = append(items, fmt.Sprintf("OBatch %s %s %s %s", coqKeys(evs), coqResp(resp), coqKeys(oc.EvKeys), coqStates(oc.States)))
+		case "fail":
+			var evs [][]byte
+			for _, i := range s.ops {
+				evs = append(evs, ops[i].Key)
+			}
+			items = append(items, fmt.Sprintf("OFail %s", coqKeys(evs)))
 		case "ckpt":
 			items = append(items, fmt.Sprintf("OCkpt %d", s.id))
 		case "restore":
@@ -735,6 +840,18 @@ func (eng) execute(mode string, c *hx.Case) (*hx.Result, error) {
 	}
 	if nWait > 0 {
 		tags = append(tags, "waited_for_flush_compaction")
+	}
+	if nArmed > 0 {
+		tags = append(tags, "read_fault_armed")
+	}
+	if nFailed > 0 {
+		tags = append(tags, "read_fault_batch_failed_with_error")
+	}
+	if nSwallowed > 0 {
+		tags = append(tags, "read_fault_hit_but_no_error")
+	}
+	if nArmed > 0 && nFailed == 0 && nSwallowed == 0 {
+		tags = append(tags, "read_fault_not_hit")
 	}
 	if nCkpt > 0 {
 		tags = append(tags, "checkpoint")
